@@ -25,8 +25,21 @@ def regen(stem):
 
 
 def build(stem):
-    r = subprocess.run(["lake", "build", f"SuccinctlyVerif.Props.{stem}"], cwd=LEAN, capture_output=True, text=True)
-    return r.returncode, (r.stdout + r.stderr)
+    """Elaborate only `lanes_generated_eq` of Props/<stem>.lean against the freshly regenerated
+    Generated/<stem>.lean (the other modules keep their compiled form: a full `lake build` would
+    re-prove every theorem downstream of the generated file for each mutation)."""
+    r = subprocess.run(["lake", "build", f"SuccinctlyVerif.Generated.{stem}"], cwd=LEAN, capture_output=True, text=True)
+    if r.returncode != 0:
+        return r.returncode, r.stdout + r.stderr
+    src = open(os.path.join(LEAN, "SuccinctlyVerif", "Props", stem + ".lean")).read()
+    head = [l for l in src.split("\n") if re.match(r"(import|namespace|open) ", l)]
+    i = src.index("theorem lanes_generated_eq")
+    i = src.rindex("/--", 0, i)
+    scratch = os.path.join(ROOT, "out", f"lanes_selftest_{stem}.lean")
+    os.makedirs(os.path.dirname(scratch), exist_ok=True)
+    open(scratch, "w").write("\n".join(head) + "\n" + src[i:])
+    r = subprocess.run(["lake", "env", "lean", scratch], cwd=LEAN, capture_output=True, text=True)
+    return r.returncode, r.stdout + r.stderr
 
 
 def mutate_fn(text, fn):
@@ -44,11 +57,11 @@ def mutate_fn(text, fn):
         v = int(m.group(1), 16)
         new = src[:m.start(1)] + hex(v ^ 1) + src[m.end(1):]
         return text.replace(src, new, 1), f"{m.group(1)} -> {hex(v ^ 1)}"
-    m = re.search(r"set1_epi8\(\s*([A-Za-z_][A-Za-z0-9_]*)\s*\)", src)
+    m = re.search(r"set1_epi8\(\s*(delimiter)\s*\)", src)
     if m:
-        # e.g. set1_epi8(delimiter) / set1_epi8(DOUBLE_QUOTE): compare against a shifted value instead
-        new = src[:m.start(1)] + f"{m.group(1)}.wrapping_add(1)" + src[m.end(1):]
-        return text.replace(src, new, 1), f"{m.group(1)} -> {m.group(1)}.wrapping_add(1)"
+        # DSV: broadcast the wrong parameter into the delimiter compare
+        new = src[:m.start(1)] + "newline" + src[m.end(1):]
+        return text.replace(src, new, 1), "set1(delimiter) -> set1(newline)"
     m = re.search(r"(uge|ult)\((\w+), (0x[0-9A-Fa-f]+)\)", src)
     if m:
         v = int(m.group(3), 16)
